@@ -1770,6 +1770,29 @@ func oracleC17(res *vh.Result, caseNo int, d *entityDecl, dump *dumped, in any) 
 		getN, getF := reqFields(0)
 		listN, listF := reqFields(1)
 		evN, evF := reqFields(2)
+		// the description of a field (leading comment, tag 14 directly after the field's line)
+		desc := map[string]string{}
+		{
+			var msg string
+			for i, l := range dump.Lines {
+				if l.Tag == 1 {
+					msg = l.Strs[0]
+				}
+				if l.Tag == 2 && i+1 < len(dump.Lines) && dump.Lines[i+1].Tag == 14 {
+					desc[msg+"."+l.Strs[0]] = dump.Lines[i+1].Strs[0]
+				}
+			}
+		}
+		reqName := func(mi int) string { return strings.TrimPrefix(query.Method[mi].GetInputType(), ".") }
+		for _, n := range getN {
+			g, e := desc[reqName(0)+"."+n], desc[reqName(2)+"."+n]
+			if _, ok := evF[n]; ok && g != e {
+				fail("C17 Get and Events requests disagree on the description of a shared key", "Get, List and Events agree on the keys they share", n+": "+g+" | "+e)
+			}
+			if _, ok := listF[n]; ok && g != desc[reqName(1)+"."+n] {
+				fail("C17 Get and List requests disagree on the description of a shared key", "Get, List and Events agree on the keys they share", n+": "+g+" | "+desc[reqName(1)+"."+n])
+			}
+		}
 		// the generated page / query fields close the List and Events requests (a key of that name in the
 		// path is reserved and never compiles)
 		keysOf := func(ns []string) []string {
